@@ -1,3 +1,94 @@
-// unit path_utils: harnesses for sdk/src/utils/path_utils.rs (included by the cfg(kani) hook at the end of that file)
+// unit path_utils: sdk/src/utils/path_utils.rs (included by the cfg(kani) hook at the end of that file)
+// C29 (lexical half): sanitize_archive_path
+//   Ok(s)  => s is non-empty, has no backslash, is not absolute, has no component "", "." or "..", and equals the
+//             input's normal components (everything between slashes except "" and ".") joined by "/"
+//   Err   <=> the input is empty, contains a backslash, starts with "/", has a ".." component, or has no normal component
 #[allow(unused_imports)]
 use super::*;
+
+fn c29_reference(p: &str) -> Option<String> {
+    if p.is_empty() || p.contains('\\') || p.starts_with('/') {
+        return None;
+    }
+    let mut parts: Vec<&str> = Vec::new();
+    for c in p.split('/') {
+        if c == ".." {
+            return None;
+        }
+        if c.is_empty() || c == "." {
+            continue;
+        }
+        parts.push(c);
+    }
+    if parts.is_empty() {
+        None
+    } else {
+        Some(parts.join("/"))
+    }
+}
+
+#[test]
+fn c29_sanitize_archive_path_all_short_strings() {
+    let thorough = std::env::var("VERIF_B_TIER").map(|t| t == "thorough").unwrap_or(false);
+    let alphabet: [char; 6] = ['a', '.', '/', '\\', ':', '%'];
+    let max_len = if thorough { 8 } else { 7 };
+    let mut evals = 0usize;
+    let mut nontrivial = 0usize;
+    let mut counts: std::collections::BTreeMap<String, usize> = std::collections::BTreeMap::new();
+    let mut cur: Vec<usize> = Vec::new();
+    // odometer over all strings of length 0..=max_len
+    for len in 0..=max_len {
+        cur.clear();
+        cur.resize(len, 0);
+        loop {
+            let s: String = cur.iter().map(|i| alphabet[*i]).collect();
+            evals += 1;
+            let expect = c29_reference(&s);
+            if expect.is_some() {
+                nontrivial += 1;
+            }
+            let got = std::panic::catch_unwind(|| sanitize_archive_path(&s));
+            let key = match got {
+                Err(_) => Some("sanitize_archive_path.panic"),
+                Ok(r) => match (r.ok(), expect) {
+                    (Some(g), Some(e)) if g == e => None,
+                    (None, None) => None,
+                    (Some(g), _) if g.is_empty() || g.contains('\\') || g.starts_with('/') || g.split('/').any(|c| c.is_empty() || c == "." || c == "..") => Some("sanitize_archive_path.unsafe_output"),
+                    (Some(_), None) => Some("sanitize_archive_path.accepts_rejected_input"),
+                    (Some(_), Some(_)) => Some("sanitize_archive_path.wrong_normal_form"),
+                    (None, Some(_)) => Some("sanitize_archive_path.rejects_valid_input"),
+                },
+            };
+            if let Some(k) = key {
+                let c = counts.entry(k.to_string()).or_insert(0);
+                *c += 1;
+                if *c <= 3 {
+                    println!("VERIF-B-VIOLATION key={k} input={s:?}");
+                }
+            }
+            // next
+            let mut i = len;
+            loop {
+                if i == 0 {
+                    break;
+                }
+                i -= 1;
+                cur[i] += 1;
+                if cur[i] < alphabet.len() {
+                    break;
+                }
+                cur[i] = 0;
+                if i == 0 {
+                    i = usize::MAX;
+                    break;
+                }
+            }
+            if len == 0 || i == usize::MAX {
+                break;
+            }
+        }
+    }
+    println!("VERIF-B-SAMPLE \"a/./a//.a\" -> {:?}; \"a/../a\" -> {:?}; \"a\\\\..\" -> {:?}", sanitize_archive_path("a/./a//.a").ok(), sanitize_archive_path("a/../a").ok(), sanitize_archive_path("a\\..").ok());
+    println!("VERIF-B-SAMPLE violation classes this run: {:?}", counts);
+    println!("VERIF-B unit=path_utils test=c29_sanitize_archive_path_all_short_strings evaluations={evals} nontrivial={nontrivial} exhaustive=true domain=every string of length 0..={max_len} over {{a . / \\ : %}}");
+}
